@@ -82,6 +82,9 @@ func converters(ds []*declInfo, pred func(f *types.Func) bool) []*types.Func {
 	var out []*types.Func
 	for _, d := range ds {
 		for _, cs := range callsIn(d.pkg, d.fd.Body) {
+			if cs.callee.Name() == "String" && cs.callee.Type().(*types.Signature).Params().Len() == 0 {
+				continue // fmt.Stringer of a generated enum is not a format converter
+			}
 			if !seen[cs.callee] && pred(cs.callee) {
 				seen[cs.callee] = true
 				out = append(out, cs.callee)
